@@ -423,8 +423,11 @@ def tob(I, x, dt):
     return np.array(x, dtype=dt).tobytes()
 
 
-def fields(I, kind, b):
-    """Ordered list of (name, value) of every stored field, at on-disk width."""
+def fields(I, kind, b, values=False):
+    """Ordered list of (name, value) of every stored field, at on-disk width.  With values=True
+    the integer maps (channel / camera numbers) are listed a second time widened to 64 bits:
+    a decoder that reads them with the wrong signedness returns other numbers although the
+    on-disk bytes are the same."""
     np = I.np
     out = []
     A = out.append
@@ -452,6 +455,8 @@ def fields(I, kind, b):
         A(("nSamples", tob(I, b.nSamples, "<i4")))
         A(("nSignals", len(b)))
         A(("channels", tob(I, list(b._emgMap), "<i2") if len(b._emgMap) else b""))
+        if values and len(b._emgMap):
+            A(("channels.values", tob(I, list(b._emgMap), "<i8")))
         for k, t in enumerate(b):
             A((f"signal{k}.label", t.label))
             A((f"signal{k}.nSamples", t.nSamples))
@@ -475,6 +480,8 @@ def fields(I, kind, b):
         plats = list(b.platforms)
         A(("nPlatforms", len(plats)))
         A(("channels", tob(I, list(b._plat_map), "<u2") if len(plats) else b""))
+        if values and len(plats):
+            A(("channels.values", tob(I, list(b._plat_map), "<i8")))
         for k, p in enumerate(plats):
             n = len(p.torque)
             A((f"plat{k}.nFrames", n))
@@ -483,6 +490,8 @@ def fields(I, kind, b):
         pl = b.platforms
         A(("nPlatforms", len(pl)))
         A(("channels", tob(I, [c for c, _ in pl], "<i2") if pl else b""))
+        if values and len(pl):
+            A(("channels.values", tob(I, [c for c, _ in pl], "<i8")))
         for k, (_, p) in enumerate(pl):
             A((f"plat{k}.label", p.label))
             A((f"plat{k}.size", tob(I, p.size, "<f4")))
@@ -494,6 +503,8 @@ def fields(I, kind, b):
         A(("startTime", tob(I, b.startTime, "<f4")))
         A(("flags", b.flags.value))
         A(("camMap", tob(I, list(b._camMap), "<u2") if len(b._camMap) else b""))
+        if values and len(b._camMap):
+            A(("camMap.values", tob(I, list(b._camMap), "<i8")))
         data = b.data
         A(("shape", tuple(data.shape)))
         for f in range(data.shape[0]):
@@ -507,6 +518,8 @@ def fields(I, kind, b):
         A(("translation", tob(I, b.calibration_volume_translation_vector, "<f4")))
         A(("nCams", len(b.cam_data)))
         A(("map", tob(I, b.cameras_calibration_map, "<i2")))
+        if values and len(b.cam_data):
+            A(("map.values", tob(I, b.cameras_calibration_map, "<i8")))
         for k, c in enumerate(b.cam_data):
             A((f"cam{k}.class", type(c).__name__))
             A((f"cam{k}.rotation", tob(I, c.rotation_matrix, "<f8")))
